@@ -57,6 +57,7 @@ def pre_attach(algorithm, executor, cluster, job):
     class Obs(so.SearchObserver, ExecutionObserver):
         def __init__(self):
             self.events = []
+            self.body = None
             self._remote = CountRemote()
             self.conds = {}
             for sc in algorithm.stopping_conditions:
@@ -95,6 +96,17 @@ def pre_attach(algorithm, executor, cluster, job):
             self.ev("SearchEnd")
 
     obs = Obs()
+    # every pass through the loop body: evolve() (MOSA, DynaMOSA, MIO, whole suite) / generate_sequence() (random)
+    for body in ("evolve", "generate_sequence"):
+        if hasattr(algorithm, body):
+            original = getattr(algorithm, body)
+
+            def wrapped(*a, __orig=original, **kw):
+                obs.ev("IterStart")
+                return __orig(*a, **kw)
+            setattr(algorithm, body, wrapped)
+            obs.body = body
+            break
     algorithm.add_search_observer(obs)
     executor.add_observer(obs)
     algorithm._verif_obs = obs
@@ -103,7 +115,7 @@ def pre_attach(algorithm, executor, cluster, job):
 def extract(algorithm, suite, executor, cluster, job):
     obs = algorithm._verif_obs
     return {"events": obs.events, "limits": [obs.conds[k].limit() if k in obs.conds else None for k in KINDS],
-            "others": obs.others, "tests": suite.size() if hasattr(suite, "size") else -1,
+            "others": obs.others, "body": obs.body, "tests": suite.size() if hasattr(suite, "size") else -1,
             "job": {k: v for k, v in job.items() if k != "pre"}}
 
 
@@ -117,16 +129,26 @@ def oracle_trace(events, limits, has_first):
     cnt = {"iter": 0, "test": 0, "stmt": 0}
     at_head = not has_first
     ended = False
+    starts = 0
     for i, (name, k, snap) in enumerate(events[1:], 1):
         if ended:
-            if name in ("IterEnd", "FirstIter", "SearchStart", "SearchEnd"):
+            if name in ("IterEnd", "FirstIter", "SearchStart", "SearchEnd", "IterStart"):
                 return ("trace:event-after-search-finish", f"{name} after after_search_finish", i)
         elif at_head and name != "SearchEnd":
             for kind, lim in zip(KINDS, limits):
                 if lim is not None and cnt[kind] >= lim:
                     return (f"budget:{names[kind]}:iteration-started",
                             f"an iteration started ({name}) although {cnt[kind]} {names[kind]} >= budget {lim} at the iteration boundary", i)
-        if name == "Exec":
+        if name == "IterStart":
+            if not at_head and not ended:
+                return ("budget:iterations:uncounted-loop-pass",
+                        f"the loop body was entered again (pass {starts + 1}) without after_search_iteration since the previous pass: "
+                        f"{cnt['iter']} iterations counted, budget {limits[0]}", i)
+            starts += 1
+            at_head = False
+            if limits[0] is not None and starts > limits[0]:
+                return ("budget:iterations:exceeded", f"{starts} passes through the loop body, budget {limits[0]}", i)
+        elif name == "Exec":
             cnt["test"] += 1
             at_head = False
         elif name == "ExecEnd":
@@ -209,12 +231,16 @@ def gen_jobs(rng, n, suts):
     for i in range(n):
         algo = ALGOS[i % len(ALGOS)]
         mode = ["iter", "test", "stmt", "all", "iter1", "test-small"][(i + i // len(ALGOS)) % 6]
+        if algo in ("MIO", "RANDOM") and mode in ("iter", "iter1", "all"):
+            mode = "iter-large"        # many cheap loop passes, most of them without any improvement
         job = dict(sut=str(suts[rng.randrange(len(suts))]), algorithm=algo, seed=rng.randrange(10 ** 6), pre=pre_attach,
                    extra={"search_algorithm.population": rng.choice([4, 6, 10])})
         if mode == "iter":
             job["iterations"] = rng.randint(1, 10)
         elif mode == "iter1":
             job["iterations"] = 1
+        elif mode == "iter-large":
+            job["iterations"] = rng.choice([8, 10, 16, 25, 40])
         elif mode == "test":
             job["iterations"] = 40
             job["executions"] = rng.randint(1, 200)
@@ -301,9 +327,9 @@ def run(ctx: vlib.Ctx):
         ctx.count("cond:" + kind)
 
     # ---- TR: real runs -----------------------------------------------------------------------------
-    suts = sorted((vlib.VERIF / "corpus" / "sut").glob("*.py"))
+    suts = sorted((vlib.VERIF / "corpus" / "sut").glob("*.py")) + sorted((vlib.VERIF / "corpus" / "C17_sut").glob("*.py"))
     corpus = json.loads((vlib.VERIF / "corpus" / "C17.json").read_text())
-    jobs = [dict(j, sut=str(vlib.VERIF / "corpus" / "sut" / j["sut"]), pre=pre_attach) for j in corpus]
+    jobs = [dict(j, sut=str(vlib.VERIF / "corpus" / j["sut"]), pre=pre_attach) for j in corpus]
     jobs += gen_jobs(rng, 21 if ctx.quick else 420, suts)
     ctx.log(f"{len(jobs)} real runs ...")
     runs = pipeline.run_many(jobs, extract, workers=10 if ctx.quick else 14, timeout=300)
@@ -329,6 +355,7 @@ def run(ctx: vlib.Ctx):
                      f"configured budgets {expected_limits} but the algorithm holds limits {limits}", {"kind": "run", "job": jd})
         o = oracle_trace(events, limits, hf)
         n_it = sum(1 for e in events if e[0] == "IterEnd")
+        ctx.count("run:loop-body-observed" if r.get("body") else "run:loop-body-not-wrapped")
         n_ex = sum(1 for e in events if e[0] == "Exec")
         ctx.case_seen(("run", jd["algorithm"], jd["sut"], jd["seed"], limits), nontrivial=n_ex > 0)
         ctx.count("run:" + job["algorithm"])
